@@ -1470,7 +1470,15 @@ func (w *verifWorldA) finalOracles() {
 			}
 		}
 		if c.Active("C01") {
-			// (d) isolation: least set an abort may reach
+			// (d) isolation: the least set an abort may reach under the documented
+			// rule (Change.AbortLanes: "all tasks in the provided lanes and any tasks
+			// waiting on them, except for tasks that are also in a healthy lane").
+			// A lane is unhealthy once one of its tasks failed or was reached; a
+			// task is reached when every lane it is in is unhealthy, or when it
+			// waits on a failed or reached task. Whatever is outside the least
+			// fixed point computed from all failures of the run must end Done:
+			// every abort the runner performs happens with a subset of these
+			// failures known, so it can only reach less.
 			M := map[string]bool{}
 			for _, vt := range vc.tasks {
 				if final[vt.id] == state.ErrorStatus {
@@ -1494,10 +1502,10 @@ func (w *verifWorldA) finalOracles() {
 					if M[vt.id] {
 						continue
 					}
-					in := false
+					in := true
 					for _, l := range vt.lanes {
-						if lanesM[l] {
-							in = true
+						if !lanesM[l] {
+							in = false
 						}
 					}
 					for _, wid := range vt.waits {
